@@ -1,4 +1,5 @@
 """C06 — Sub, tuplets and chords: streams."""
+import re
 from ..core import Stream, hx, unhx
 from .. import mml, execstream
 
@@ -56,6 +57,9 @@ def streams(tier, rng, P, only=None, cases=None):
                 loop = ('loop', rng.choice([2, 3, 4]), el(rng.randrange(1, 3)), el(rng.randrange(0, 3)) + [('raw', ':')] + el(rng.randrange(1, 3)))
                 prog = [('div', el(rng.randrange(0, 2)) + [loop] + el(rng.randrange(0, 3)), mml.gen_len(rng), '{'), ('noten', 100, None, None, None, None)]
             src = mml.pr(prog)
+            if i % 3 == 2:
+                # a loop played twice may be written without its count (`[c d]`): the same loop, also as an element of a tuplet
+                src = re.sub(r"\[[ \t]*2[ \t]+(?=[a-gr'{\[nolvq<>])", "[", src)
             cs.append(dict(req="run " + hx(src), src=src, show=src, sexp=mml.sexp(prog), blk=has_block(prog), key="b%d" % i, prog=prog))
         for j, src_prog in enumerate([
             [('l', ((False, 4, 0), [])), ('div', [('note', 'c', 0, False, ((False, None, 0), [(False, None, 0)]), None, None, None, None), ('note', 'd', 0, False, None, None, None, None, None)], None, '{'), ('note', 'e', 0, False, None, None, None, None, None)],
